@@ -24,14 +24,23 @@ RULE = ("(1) stamps: random histories of record_run_started/record_run_stopped(o
         "during c's command; compared after every event of c with Fresh.check_trace: dispatch decision, amend "
         "answer (unavailable, unfresh, carry_on, rejection), step state, deferred, defer_count, draining, both "
         "stamp dictionaries, dynamic edges; non-trivial when the command started and at least one amend or "
-        "environment action happened inside it; distinct by the whole script. (3) oracle on the implementation "
-        "alone, from the driver's own event-order log.")
+        "environment action happened inside it; distinct by the whole script. A case continues after c SUCCEEDED: "
+        "re-pending actions (mark_step_pending, EXTERNAL check of a rewritten/deleted output, producers, static "
+        "inputs vanishing, withdrawal of amended inputs, a changed tracked environment variable, hash deletion) "
+        "lead to CHECKING jobs (try_skip_job with 0-2 actions of other actors inside the await of its output "
+        "hashing, validate_dynamic_job; 35 % of the cases are built around an amended static input that is "
+        "withdrawn), 8 % of the runs cancel one hash computation (real cancel event); compared with "
+        "FreshSkip.xcheck_trace incl. job kind, skipped, has_hash and the ingredient lists of explained hashes. "
+        "(3) oracle on the implementation alone, from the driver's own event-order log and from digests "
+        "recomputed with hash.StepHash over files hashed afresh by the driver.")
 TRUSTED_BASE = [
     "Coq 8.16.1 kernel (vm_compute in Examples, in two refutation witnesses and in the correspondence evaluation)",
     "Print Assumptions: Closed under the global context for every C03 theorem",
     "translator/gen_fresh.py (statement/condition tables per function incl. _flag_inputs_not_final, SQL boolean parser, skeleton comparison; execute_job accepted in two reviewed shapes, which one is a generated fact)",
     "harness/c03_driver.py (script interpreter, row observation, hash-code abstraction of FileHash equality)",
-    "the composition order in model/Fresh.v (do_try/do_amend/do_end), validated by correspondence (2)",
+    "the composition order in model/Fresh.v (do_try/do_amend/do_end) and model/FreshSkip.v (do_xtry/do_xchk/do_xend), validated by correspondence (2)",
+    "translator tables for try_skip_job (two reviewed shapes), validate_dynamic_job, _reset_step_to_pending, the tail of _derive_job, job.py; literal skeletons of _run_work_thread, _compute_out_step_hash, hash.py ingredient words",
+    "C13 (equal digests have equal ingredient lists): the model compares ingredient lists where the code compares SHA-256 digests",
 ]
 ASSUMPTIONS = [
     "no_aba: no writer restores the exact earlier content, size and mode of an input inside one command window "
@@ -41,6 +50,8 @@ ASSUMPTIONS = [
     "a post-hoc amended static file that is confirmed for the first time during the command cannot be checked "
     "for the part of the window before its confirmation",
     "(since fix a02f82b the former hypothesis db_stable is enforced by Executor._flag_inputs_not_final and proved)",
+    "an external write (no database change) between the input hashing and the recording transaction of try_skip_job "
+    "is not seen by the skip (end-point hashing); it is found at the next start-up because record and disk differ",
 ]
 
 from .p_c03_sigs import SIG_OTHER, SIG_RECONF, SIG_RERUN, SIG_SKIP_WINDOW, SIG_VALIDATE_LOOP
